@@ -31,7 +31,8 @@
 #define NMAX 6
 
 typedef struct kase {
-    char kind[12], from[8], via[8], to[8], z0[8], net[16], mag[8];
+    char kind[12], from[8], via[8], to[8], z0[8], net[16], mag[8], pat[8],
+	 shape[12];
     int n, alias;
 } kase_t;
 
@@ -62,9 +63,10 @@ static int load_cases(const char *path)
 	    return -1;
 	}
 	k = &cases[ncases];
-	if (sscanf(line, "case\t%11s\t%7s\t%7s\t%7s\t%d\t%d\t%7s\t%15s\t%7s",
+	if (sscanf(line, "case\t%11s\t%7s\t%7s\t%7s\t%d\t%d\t%7s\t%15s\t%7s"
+		    "\t%7s\t%11s",
 		    k->kind, k->from, k->via, k->to, &k->n, &k->alias, k->z0,
-		    k->net, k->mag) != 9) {
+		    k->net, k->mag, k->pat, k->shape) != 11) {
 	    fprintf(stderr, "bad case line: %s", line);
 	    return -1;
 	}
@@ -76,8 +78,9 @@ static int load_cases(const char *path)
 
 static void case_key(const kase_t *k, char *buf, size_t len)
 {
-    snprintf(buf, len, "%s:%s:%s:%s:%d:%d:%s:%s:%s", k->kind, k->from, k->via,
-	    k->to, k->n, k->alias, k->z0, k->net, k->mag);
+    snprintf(buf, len, "%s:%s:%s:%s:%d:%d:%s:%s:%s:%s:%s", k->kind, k->from,
+	    k->via, k->to, k->n, k->alias, k->z0, k->net, k->mag, k->pat,
+	    k->shape);
 }
 
 static uint64_t hash_str(const char *s)
@@ -92,6 +95,74 @@ static uint64_t hash_str(const char *s)
 static double complex cgauss(vt_rng_t *r, double scale)
 {
     return scale * (vt_normal(r) + I * vt_normal(r));
+}
+
+/*
+ * reference impedances with a prescribed equality pattern: pat[p] names the
+ * group of port p; flavour peq = one real value per group, pce = one complex
+ * value per group, pre = one real part per group with imaginary parts that
+ * differ from port to port.  Different groups get clearly different real
+ * parts.
+ */
+static void draw_z0_pattern(vt_rng_t *r, const char *flavour, const char *pat,
+	int n, double complex *z0)
+{
+    double re[8], im[8];
+    int ng = 0;
+
+    for (int p = 0; p < n; ++p) {
+	if (pat[p] - 'a' + 1 > ng)
+	    ng = pat[p] - 'a' + 1;
+    }
+    for (int g = 0; g < ng && g < 8; ++g) {
+	int ok;
+
+	do {
+	    re[g] = vt_below(r, 4) == 0 ? 50.0 : 20.0 + 130.0 * vt_unit(r);
+	    ok = 1;
+	    for (int h = 0; h < g; ++h) {
+		if (fabs(re[g] - re[h]) < 0.02 * re[h])
+		    ok = 0;
+	    }
+	} while (!ok);
+	im[g] = 160.0 * vt_unit(r) - 80.0;
+    }
+    for (int p = 0; p < n; ++p) {
+	int g = pat[p] - 'a';
+
+	if (strcmp(flavour, "peq") == 0)
+	    z0[p] = re[g];
+	else if (strcmp(flavour, "pce") == 0)
+	    z0[p] = re[g] + I * im[g];
+	else
+	    z0[p] = re[g] + I * (10.0 * (p + 1) + 150.0 * vt_unit(r) - 80.0);
+    }
+}
+
+/* may entry (i, j) of an n x n matrix of that shape be non-zero?  (the
+ * same table as NetParams!ShapeEntry; the spec decides which conversions
+ * are regular for it, the driver only has to produce such a matrix) */
+static int shape_entry(const char *shape, int n, int i, int j)
+{
+    if (strcmp(shape, "diag") == 0)
+	return i == j;
+    if (strcmp(shape, "upper") == 0)
+	return i <= j;
+    if (strcmp(shape, "lower") == 0)
+	return i >= j;
+    if (strcmp(shape, "blockdiag") == 0)
+	return (i < (n + 1) / 2) == (j < (n + 1) / 2);
+    if (strcmp(shape, "pair") == 0)
+	return i == j || (i == 0 && j == n - 1) || (i == n - 1 && j == 0);
+    return 1;
+}
+
+/* natural magnitude of a port quantity in root-power units */
+static double term_unit(const rc_term_t *t, const double complex *z0)
+{
+    double rt = sqrt(cabs(z0[t->p]));
+
+    return t->q == 'v' ? rt : (t->q == 'i' ? 1.0 / rt : 1.0);
 }
 
 static void draw_z0(vt_rng_t *r, const char *cls, int n, double complex *z0)
@@ -161,10 +232,50 @@ static const cr_entry_t *find_fn(const char *from, const char *to, int nport)
 
 static int impure_calls;	/* calls whose result depended on more than
 				   their arguments, this draw */
+static int unwritten_calls;	/* calls that left a cell of a separate output
+				   buffer untouched, this draw */
+
+/* poison patterns: two NaNs with distinct payloads and a huge finite value */
+static double complex poison(int which)
+{
+    static const uint64_t bits[3] = {
+	0x7ff8dead0000beefull, 0x7ff8c0de5a5a0001ull, 0x7fe1234567890abcull
+    };
+    uint64_t b[2];
+    double complex z;
+
+    b[0] = b[1] = bits[which % 3];
+    memcpy(&z, b, sizeof(z));
+    return z;
+}
+
+static int has_poison(const double complex *x, int len, int which)
+{
+    double complex p = poison(which);
+
+    for (int i = 0; i < len; ++i) {
+	if (memcmp(&x[i], &p, sizeof(p)) == 0)
+	    return 1;
+    }
+    return 0;
+}
 
 static void apply_once(const cr_entry_t *e, const double complex *in,
-	double complex *out, const double complex *z0, int n, int aliased)
+	double complex *out, const double complex *z0, int n, int aliased,
+	int which)
 {
+    int outn = (e->kind == CR_FI2 || e->kind == CR_FIN) ? n : n * n;
+
+    if (!aliased) {
+	/* a separate output buffer holds no information: every cell must
+	 * be stored by the call */
+	for (int i = 0; i < NMAX * NMAX; ++i)
+	    out[i] = poison(which);
+	LIBV(cr_call(e, in, out, z0, n));
+	if (has_poison(out, outn, which))
+	    ++unwritten_calls;
+	return;
+    }
     if (aliased) {
 	double complex buf[NMAX * NMAX];
 	int outlen = (e->kind == CR_FI2 || e->kind == CR_FIN) ? n : n * n;
@@ -193,14 +304,20 @@ static void apply(const cr_entry_t *e, const double complex *in,
 	    n : n * n) * sizeof(double complex);
 
     feclearexcept(FE_ALL_EXCEPT);
-    apply_once(e, in, out, z0, n, aliased);
+    apply_once(e, in, out, z0, n, aliased, 0);
     feclearexcept(FE_ALL_EXCEPT);
     feraiseexcept(FE_DIVBYZERO | FE_INVALID | FE_OVERFLOW | FE_INEXACT);
-    apply_once(e, in, o2, z0, n, aliased);
+    apply_once(e, in, o2, z0, n, aliased, 1);
     feclearexcept(FE_ALL_EXCEPT);
     memset(zero, 0, sizeof(zero));
-    apply_once(e, zero, junk, z0, n, 0);
-    apply_once(e, in, o3, z0, n, aliased);
+    {
+	int before = unwritten_calls;
+
+	/* singular input: only its side effects matter */
+	apply_once(e, zero, junk, z0, n, 0, 1);
+	unwritten_calls = before;
+    }
+    apply_once(e, in, o3, z0, n, aliased, 2);
     feclearexcept(FE_ALL_EXCEPT);
     if (memcmp(out, o2, outlen) != 0 || memcmp(out, o3, outlen) != 0)
 	++impure_calls;
@@ -290,14 +407,43 @@ static void run_draw(const kase_t *k, vt_rng_t *r, verdict_t *v)
     v->worst = 0.0;
     v->what = "-";
     impure_calls = 0;
+    unwritten_calls = 0;
     if (rs == NULL || rin == NULL) {
 	fprintf(stderr, "no relation for %s n=%d\n", k->from, n);
 	exit(3);
     }
     /* input network: away from the singular set of building `from` */
     for (int tries = 0; tries < 50 && !ok; ++tries) {
-	draw_z0(r, k->z0, n, z0);
+	if (strcmp(k->pat, "-") != 0)
+	    draw_z0_pattern(r, k->z0, k->pat, n, z0);
+	else
+	    draw_z0(r, k->z0, n, z0);
 	draw_drive(r, n, drive);
+	if (strcmp(k->shape, "dense") != 0) {
+	    /* input matrix with exact zeros outside the shape, entries of
+	     * the natural magnitude of its type; whether the conversion is
+	     * regular for it was decided by the spec, how well conditioned
+	     * this instance is by the check below */
+	    int symm = strcmp(k->shape, "sym") == 0;
+
+	    for (int i = 0; i < n; ++i) {
+		for (int j = 0; j < n; ++j) {
+		    double u = term_unit(&rin->dep[i], z0) /
+			term_unit(&rin->ind[j], z0);
+
+		    if (!shape_entry(k->shape, n, i, j))
+			min[i * n + j] = 0.0;
+		    else if (symm && j < i)
+			min[i * n + j] = min[j * n + i] /
+			    (term_unit(&rin->dep[j], z0) /
+			     term_unit(&rin->ind[i], z0)) * u;
+		    else
+			min[i * n + j] = u * cgauss(r, 0.45);
+		}
+	    }
+	    ok = 1;
+	    continue;
+	}
 	if (structured) {
 	    /* a network for which some OTHER representation does not exist:
 	     * its matrix of the input type comes from its constraints */
@@ -480,9 +626,9 @@ static void run_draw(const kase_t *k, vt_rng_t *r, verdict_t *v)
 
 static void run_case(const kase_t *k, uint64_t seed, int draws)
 {
-    char key[128];
+    char key[192];
     int decided = 0, failed = 0, first_bad = -1;
-    int impure = 0, first_impure = -1;
+    int impure = 0, first_impure = -1, unwritten = 0;
     double worst = 0.0;
     const char *what = "-";
 
@@ -496,6 +642,8 @@ static void run_case(const kase_t *k, uint64_t seed, int draws)
 	run_draw(k, &r, &v);
 	if (impure_calls > 0 && impure++ == 0)
 	    first_impure = d;
+	if (unwritten_calls > 0)
+	    ++unwritten;
 	if (!v.decided)
 	    continue;
 	++decided;
@@ -512,11 +660,13 @@ static void run_case(const kase_t *k, uint64_t seed, int draws)
 	    "\"from\":\"%s\",\"via\":\"%s\",\"to\":\"%s\",\"n\":%d,"
 	    "\"alias\":%d,\"z0\":\"%s\",\"net\":\"%s\",\"mag\":\"%s\","
 	    "\"draws\":%d,\"decided\":%d,\"pure\":%d,\"impure\":%d,"
-	    "\"firstImpure\":%d,"
+	    "\"firstImpure\":%d,\"pat\":\"%s\",\"shape\":\"%s\","
+	    "\"allWritten\":%d,\"unwritten\":%d,"
 	    "\"failed\":%d,\"firstBad\":%d,\"what\":\"%s\",\"lg\":%d}",
 	    (unsigned long long)seed, draws, key, k->kind, k->from, k->via,
 	    k->to, k->n, k->alias, k->z0, k->net, k->mag, draws, decided,
-	    impure == 0, impure, first_impure, failed, first_bad,
+	    impure == 0, impure, first_impure, k->pat, k->shape,
+	    unwritten == 0, unwritten, failed, first_bad,
 	    what, worst > 0.0 && isfinite(worst) ?
 		(int)ceil(log10(worst)) : (worst == 0.0 ? -99 : 99));
     vt_end_line();
@@ -546,7 +696,7 @@ int main(int argc, char **argv)
     draws = atoi(argv[3]);
     if (strcmp(argv[4], "key") == 0) {
 	for (int i = 0; i < ncases; ++i) {
-	    char key[128];
+	    char key[192];
 
 	    case_key(&cases[i], key, sizeof(key));
 	    if (strcmp(key, argv[5]) == 0) {
